@@ -600,7 +600,19 @@ func c02Agg(r *ev.Reporter, f *c02Fix, tag string, bA, bB *hotstuff.Block, st *c
 		sub = hotstuff.NewQuorumCert(nil, bB.View(), bB.Hash())
 	}
 	relab := hotstuff.NewQuorumCert(qcA.Signature(), 9, bA.Hash())
-	choices := []qcChoice{{"genesis", fix.GenesisQC(), true}, {"QC(A,v1)", qcA, true}, {"QC(B,v2)", qcB, true}, {"subquorum(B)", sub, false}, {"QC(A)relabelled-v9", relab, false}}
+	choices := []qcChoice{{"genesis", fix.GenesisQC(), true}, {"QC(A,v1)", qcA, true}, {"QC(B,v2)", qcB, true}, {"subquorum(B)", sub, false}, {"QC(A)relabelled-v9", relab, false},
+		{"genesis-relabelled-v9", hotstuff.NewQuorumCert(nil, 9, hotstuff.GetGenesis().Hash()), false}}
+	// the signature-less certificate of the genesis block stands for view 0 only
+	for _, v := range []hotstuff.View{0, 1, 9, 1<<64 - 1} {
+		gq := hotstuff.NewQuorumCert(nil, v, hotstuff.GetGenesis().Hash())
+		acc, pan := verify2(func() error { return ver.VerifyQuorumCert(gq) })
+		tally(acc, pan)
+		for attempt, a := range acc { // cold and warm
+			if a != (v == 0) && !pan {
+				report("genesis QC", fmt.Sprintf("QC{no signature, view %d, genesis block} (attempt %d): accepted=%v", v, attempt+1, a))
+			}
+		}
+	}
 	type aggMut int
 	const (
 		mNone aggMut = iota
